@@ -18,6 +18,7 @@ def run(chk):
                        'variant, and the SHANI/GFNI off flags clear exactly their bits. Not decided: bit-equality of two different '
                        'kernels for the same algorithm (value-level); ISA containment of reachable instructions (see DESIGN R4).')
     inits.rule_bindings(chk, P, 'R1')
+    inits.rule_slot_siblings(chk, P, 'R1s')
     inits.rule_handlers(chk, P, 'R2', 'R2b', 'R2c')
     r3 = chk.rule('R3', 'each variant init is reached only under feature tests covering its IMB_CPUFLAGS mask; failing edges report '
                         'the missing-CPU-flags error or fall through to a weaker variant', floor=30)
@@ -87,6 +88,11 @@ def run(chk):
             missing = need & ~cover
             r3.check(missing == 0, vt + ':cover', ev['loc'],
                      '%s is reachable with feature bits %#x of %s untested (front-end tests %#x, own guard %#x)' % (f.name, missing, mname, fm, own))
+            # the front-end selects automatically: it must hand a CPU only to a variant that CPU supports, so that the variant's own guard
+            # never turns an automatic selection into a missing-CPU-flags error (a weaker variant would have worked)
+            r3.check(n == 1 or need & ~fm == 0, vt + ':select', ev['loc'],
+                     'init_mb_mgr_%s_internal selects %s after testing only %#x of %s (%#x): a CPU lacking bits %#x gets the missing-CPU-flags '
+                     'error from the variant although a weaker variant supports it' % (arch, f.name, fm, mname, need, need & ~fm))
         # order: stronger types are tried first — every variant call site of a stronger type dominates weaker ones' sites
     for arch in ('sse', 'avx2', 'avx512'):
         fe = P.find('init_mb_mgr_%s_internal' % arch)
